@@ -2,7 +2,7 @@
 # run_seed.sh <Cxx> <patchfile> [check args]: run the property's quick check against a seeded change.
 # The change is applied to a scratch worktree of /repo's HEAD (never to /repo itself), with scratch build and
 # evidence directories, so the registered checks and their evidence are not disturbed.
-P=$1; PATCH=$2; shift 2
+P=$1; PATCH=$(readlink -f "$2"); shift 2
 WT=/tmp/seedrun_$P
 if [ ! -d $WT ]; then git -C /repo worktree add --detach $WT HEAD >/dev/null 2>&1 || exit 9; fi
 git -C $WT checkout -q --detach $(git -C /repo rev-parse HEAD) 2>/dev/null; git -C $WT checkout -q -- .
